@@ -27,7 +27,7 @@
 (* provenance are outside this module (vf/ramjson.py marks such programs   *)
 (* unsupported and they are not given to it).                              *)
 (***************************************************************************)
-EXTENDS Integers, Sequences, FiniteSets, TLC, Functors, RamData
+EXTENDS Integers, Sequences, FiniteSets, TLC, Functors, Json, RamData
 \* RamData defines: RamProg  == [relations, main, subroutines]
 \*                  RamEDBs  == << [rel |-> <<tuples>>] ... >>      input facts per behaviour
 \*                  RamExpect == << [have |-> BOOLEAN, m |-> [rel |-> <<tuples>>]] ... >>  Model(P, EDB) from spec/Datalog.tla
@@ -356,6 +356,8 @@ SemiNaiveOK ==
                    glog.runs[i].n = (IF RamSN[ei].loops[glog.runs[i].sid] = 0 THEN 1 ELSE RamSN[ei].loops[glog.runs[i].sid])
         /\ \A ln \in DOMAIN RamSN[ei].att :
                \A j \in 1..Len(RamSN[ei].att[ln]) : SumAtt(glog.att, 1, ln, j - 1) = RamSN[ei].att[ln][j]
+\* prints the final outputs of every terminated behaviour (used when the contract is a result predicate judged elsewhere)
+EmitFinal == Finished => PrintT(ToJson([tag |-> "RAMFINAL", ei |-> ei, ord |-> vars["@ord"], oob |-> oob, outs |-> outs]))
 \* temporaries are empty when the program ends
 TempsCleared == Finished => \A r \in DeltaRels \cup NewRels : db[r] = {}
 =============================================================================
